@@ -42,6 +42,7 @@ def _inputs():
         'abc-with-empties': [b'', b'abc', b''],
         'compressible-240': [b'hello world ' * 10, b'hello world ' * 10],
         'incompressible-70000': [incompressible[:30000], incompressible[30000:]],
+        'incompressible-280000-in-7000B-chunks': [(incompressible * 4)[i:i + 7000] for i in range(0, 280000, 7000)],
         'compressible-400000': [(b'0123456789abcdef' * 25000)],
         'compressible-3MiB': [b'2026-10-02 12:00:00 INFO request handled in 12 ms\n' * 20000] * 3,
     }
